@@ -1,7 +1,46 @@
-(* C10 placeholder *)
+(* C10 - basic blocks partition each method at every control-flow boundary.  Property theorems only.
+   A method is the list insl of its instructions (byte length, kind); code = with_off 0 insl pairs each with its offset;
+   excs is the try table as determineException delivers it.  chain s bs e: the blocks bs are non-empty, each is a
+   contiguous run of instructions starting at its b_start, the first starts at s, each next one where the previous ends,
+   the last ends at e.  determine_next is determineNext; is_branch: the opcode is in BasicOPCODES. *)
 From Coq Require Import ZArith List.
-Require Import V.Analysis.CfgModel.
+Require Import V.Analysis.CfgModel V.Analysis.CfgProofs.
 Import ListNotations.
 Open Scope Z_scope.
-Example C10_nonvacuous : length (blocks_of (with_off 0 [{| ilen := 2; ikind := KIf 2 |}; {| ilen := 2; ikind := KPlain |}; {| ilen := 2; ikind := KExit |}]) []) = 3%nat.
+
+(* contiguous, non-overlapping, covering every instruction exactly once, in order *)
+Theorem C10_blocks_partition_the_method : forall insl excs,
+  let code := with_off 0 insl in
+  chain 0 (blocks_of code excs) (code_len code) /\ concat (map b_ins (blocks_of code excs)) = code.
+Proof. exact blocks_partition. Qed.
+Print Assumptions C10_blocks_partition_the_method.
+
+(* every branch target, instruction after a conditional or switch, and switch case target that is an instruction begins a block *)
+Theorem C10_branch_targets_begin_blocks : forall insl excs o i v j,
+  let code := with_off 0 insl in
+  In (o, i) code -> is_branch (ikind i) = true -> In v (determine_next code o i) -> In (v, j) code ->
+  exists b, In b (blocks_of code excs) /\ b_start b = v /\ hd_error (b_ins b) = Some (v, j).
+Proof. exact branch_targets_begin_blocks. Qed.
+Print Assumptions C10_branch_targets_begin_blocks.
+
+(* every try start and handler address that is an instruction begins a block *)
+Theorem C10_try_addresses_begin_blocks : forall insl excs e v j,
+  let code := with_off 0 insl in
+  In e excs -> (v = e_start e \/ In v (map snd (e_handlers e))) -> In (v, j) code ->
+  exists b, In b (blocks_of code excs) /\ b_start b = v /\ hd_error (b_ins b) = Some (v, j).
+Proof. exact try_addresses_begin_blocks. Qed.
+Print Assumptions C10_try_addresses_begin_blocks.
+
+(* only the last instruction of a block can branch, switch, return or throw *)
+Theorem C10_only_the_last_instruction_branches : forall code excs b q,
+  In b (blocks_of code excs) -> In q (removelast (b_ins b)) -> is_branch (ikind (snd q)) = true -> In q code -> False.
+Proof. exact blocks_branch_last. Qed.
+Print Assumptions C10_only_the_last_instruction_branches.
+
+(* if-eqz +3 ; nop ; goto -2 ; return-void   with a try over the nop whose handler is the return *)
+Example C10_nonvacuous :
+  let insl := [{| ilen := 4; ikind := KIf 3 |}; {| ilen := 2; ikind := KPlain |}; {| ilen := 2; ikind := KGoto (-2) |};
+               {| ilen := 2; ikind := KExit |}] in
+  map (fun b => (b_start b, b_end b)) (blocks_of (with_off 0 insl) [{| e_start := 4; e_end := 5; e_handlers := [(1, 8)] |}])
+  = [(0, 4); (4, 6); (6, 8); (8, 10)].
 Proof. vm_compute. reflexivity. Qed.
